@@ -60,7 +60,7 @@ func NewP(n int) (*PCluster, error) {
 		if pn.kvf, err = kv.NewPebbleKVFactory(&kv.FactoryOptions{DataDir: pn.dir + "/db", CacheSizeMB: 1}); err != nil {
 			return nil, err
 		}
-		pn.walf = wal.NewWalFactory(&wal.FactoryOptions{BaseWalDir: pn.dir + "/wal", SegmentSize: 64 * 1024})
+		pn.walf = &FaultyWalFactory{Factory: wal.NewWalFactory(&wal.FactoryOptions{BaseWalDir: pn.dir + "/wal", SegmentSize: 64 * 1024})}
 		pn.dirc = server.NewShardsDirector(nodeConfig, pn.walf, pn.kvf, ptransport{c, i})
 		c.Nodes = append(c.Nodes, pn)
 	}
@@ -731,4 +731,11 @@ func (c *PCluster) WaitSettled(d time.Duration) bool {
 		time.Sleep(5 * time.Millisecond)
 	}
 	return false
+}
+
+// FailNextAppend: the next entry the node takes as a follower fails in its WAL (once)
+func (c *PCluster) FailNextAppend(i int) {
+	if f, ok := c.Nodes[i].walf.(*FaultyWalFactory); ok {
+		f.FailNextAppends(1)
+	}
 }
